@@ -416,9 +416,13 @@ func intTrueDiv(a, b *big.Int) (Object, error) {
 	if math.IsInf(f, 0) {
 		return nil, ExceptionNewf(OverflowError, "integer division result too large for a float")
 	}
-	if f == 0 && b.Sign() < 0 {
-		// 0 / -5 is -0.0
-		f = math.Copysign(0, -1)
+	if f == 0 {
+		// a zero quotient (0 / -5, or one too small for a float)
+		// has the sign the operands give it
+		f = 0
+		if (a.Sign() < 0) != (b.Sign() < 0) {
+			f = math.Copysign(0, -1)
+		}
 	}
 	return Float(f), nil
 }
